@@ -96,18 +96,13 @@ Section OrderedMap.
 End OrderedMap.
 
 (* ---- the class header emitted by the converter model ---- *)
-Definition is_meta_kw (kw : option ident * expr) : bool :=
-  match fst kw with Some k => String.eqb k "metaclass" | None => false end.
-
 Theorem classdef_shape : forall cfg c p name ln bases kws body decs es,
   lower_stmt cfg c p (SClassDef name ln bases kws body decs) = inl es ->
   exists cn bases' kws' create load rest,
     find_inner (c_nsp c) name ln = Some cn /\ n_kind cn = NClass /\
     rmap (tr (c_nsp c)) bases = inl bases' /\
     rmap (fun kw => let! v := tr (c_nsp c) (snd kw) in ret (fst kw, v)) kws = inl kws' /\
-    get_assign (c_nsp c) name
-      (Call (match rev (filter is_meta_kw kws') with kw :: _ => snd kw | [] => Name "type" end)
-            [cstr name; ETuple bases'; EDict [] []] (filter (fun kw => negb (is_meta_kw kw)) kws')) = inl create /\
+    get_assign (c_nsp c) name (class_create p name bases' kws') = inl create /\
     get_load_name (c_nsp c) [] false name = inl load /\
     es = create :: rest.
 Proof.
